@@ -70,10 +70,61 @@ def mutate_bytes(rng, b):
     return bytes(b)
 
 
+def utf8_grid():
+    """Every lead byte x boundary second bytes x continuation tails, in each place where the lexer decodes characters."""
+    seconds = [None, 0x00, 0x22, 0x41, 0x7F, 0x80, 0x8F, 0x90, 0x9F, 0xA0, 0xBF, 0xC0, 0xF4, 0xFF]
+    tails = [b'', b'\x80', b'\x80\x80', b'\xbf\xbf', b'\x80\x80\x80']
+    frames = [(b'', b''), (b'"', b'"'), (b"'", b"'"), (b'@"', b'"'), (b'|||\n ', b'\n|||'), (b'"\\', b'"'), (b'/* ', b' */ 1'), (b'# ', b'\n1'), (b'x', b'')]
+    out = []
+    for lead in range(0x80, 0x100):
+        for sec in seconds:
+            for tail in tails:
+                if sec is None and tail:
+                    continue
+                seq = bytes([lead]) + (bytes([sec]) if sec is not None else b'') + tail
+                for pre, post in frames:
+                    out.append(pre + seq + post)
+    return out
+
+
+def format_grid(rng, quick):
+    """Every conversion x width x precision x argument form, at top level and nested inside other expressions."""
+    convs = list('diouxXeEfFgGcs%') + ['r', 'z', '']
+    widths = ['', '5', '*', '0']
+    precs = ['', '.3', '.*', '.', '.0']
+    flags = ['', '-', '0', '+', ' ', '#', '-0+ #']
+    vals = ['1', '-1.5', '"ab"', '"é"', 'null', '[1]', '{a: 1}', 'true', '65', '1e300', '""']
+    frames = ['%s', '"a" + (%s)', '[(%s), 1]', '{k: (%s)}', 'std.length(%s)', '[1, 2, (%s)][2]', '(%s) + "z"', 'std.join(",", ["q", (%s)])']
+    out = []
+    for c in convs:
+        for w in widths:
+            for pr in precs:
+                for fl in (flags if not quick else rng.sample(flags, 2)):
+                    nstar = (w == '*') + (pr == '.*')
+                    code = '%' + fl + w + pr + c
+                    forms = []
+                    args = [rng.choice(['3', '0', '-2', '"x"', '2.5']) for _ in range(nstar)] + [rng.choice(vals)]
+                    forms.append('"%s" %% [%s]' % (code, ', '.join(args)))
+                    forms.append('"<%s|%s>" %% [%s]' % (code, code, ', '.join(args + args)))
+                    forms.append('"%s" %% [%s]' % (code, ', '.join(args[:-1])))            # one argument short
+                    forms.append('"%s" %% [%s, 7]' % (code, ', '.join(args)))               # one too many
+                    if nstar == 0:
+                        forms.append('"%s" %% %s' % (code, rng.choice(vals)))             # single non-array value
+                        forms.append('"%%(k)%s" %% {k: %s}' % (code[1:], rng.choice(vals)))
+                        forms.append('std.format("%%(k)%s %%(j)%s", {k: %s, j: %s})' % (code[1:], code[1:], rng.choice(vals), rng.choice(vals)))
+                    else:
+                        forms.append('"%%(k)%s" %% {k: 1}' % code[1:])
+                    for f in (forms if not quick else rng.sample(forms, 3)):
+                        out.append(rng.choice(frames) % f)
+                        out.append(f)
+    return sorted(set(out))
+
+
 def run(rep):
     rep.rule = ("(a) random and mutated byte strings as source (ui-tests corpus, stdlib source, generated programs), "
                 "(b) generated core programs, (c) every member of `std` (listed by the implementation itself) applied to a "
-                "grid of boundary arguments of every type, (d) the real CLI on a sample incl. ext-var/TLA bindings, exit "
+                "grid of boundary arguments of every type, a grid of every format directive (conversion x flags x width x precision x "
+                "argument form, nested in other expressions), every UTF-8 lead byte x boundary second byte x tail in every lexical context, (d) the real CLI on a sample incl. ext-var/TLA bindings, exit "
                 "status and stderr inspected, (e) nesting-depth probes of every recursive syntactic form; non-trivial = the "
                 "input reached the evaluator or produced a diagnosed error other than the first-byte lexical error; "
                 "distinct by input text")
@@ -109,6 +160,7 @@ def run(rep):
         else:
             inputs.append(mutate_bytes(rng, rng.choice(progs)))
     inputs += progs
+    inputs += utf8_grid()
     lines = ['eval %s max_stack=200' % (b.hex() if b else '-') for b in inputs]
     outs = vlib.impl(lines, timeout=900, mem_limit=MEM_LIMIT)
     for b, a in zip(inputs, outs):
@@ -160,6 +212,9 @@ def run(rep):
         calls.append('(%s)[%s]' % (rng.choice(BOUNDARY), rng.choice(BOUNDARY)))
         calls.append('"%s" %% [%s, %s]' % (rng.choice(['%d', '%5.3f', '%s%s', '%*d', '%(a)s', '%c', '%x', '%e', '%g', '%%', '%', '%.70000f', '%-0+ #10.4d']),
                                           rng.choice(BOUNDARY), rng.choice(BOUNDARY)))
+    fg = format_grid(rng, quick)
+    rep.extra['format_grid'] = len(fg)
+    calls += fg
     lines = [vlib.eval_line('local r = (%s); if std.isFunction(r) then "function" else r' % c, max_stack=400) for c in calls]
     outs = vlib.impl(lines, timeout=1500, mem_limit=MEM_LIMIT)
     for c, a in zip(calls, outs):
